@@ -1227,11 +1227,11 @@ def replay(path):
     try:
         p = Factory(tmp).make(r)
         print('recipe  :', json.dumps(r))
-        print('file    :', os.path.getsize(p), 'bytes, descriptor', describe(p)[0])
+        print('file    :', os.path.getsize(p) if os.path.isfile(p) else '(not a regular file)', 'bytes, descriptor', describe(p)[0], '| observations', c14x.world_of(p, case['argument']))
         eps = entry_points()
         res = call(eps[case['entry_point']], p, case['argument'])
         print(f'{case["entry_point"]}({case["argument"]}) ->', res['out'], res['cls'] or '', res['exc'] or '')
-        results = {(e, a): call(eps[e], p, a) for _, e, a in CELLS}
+        results = {(e, a): call(eps[e], p, a) for _, e, a in CELLS if a == 'path' or os.path.isfile(p) or r['kind'] == 'special'}
         msg = oracle_cell(r['label'], r, case['entry_point'], case['argument'], results[(case['entry_point'], case['argument'])], results)
         print('oracle  :', msg or 'ok')
         return 1 if msg else 0
